@@ -48,6 +48,9 @@ pub fn def() -> PropDef {
 }
 
 fn run(sim: &Sim, cfg: &RunCfg) -> RunOut {
+    // the property says "in bounded time" / "without blocking forever": a run that is still going
+    // after the step cap (orders of magnitude above any run on the unchanged tree) is a violation
+    sim.st().cap_clause = Some("livelock");
     sim.choose_policy();
     swarm_short_io(sim);
     let rw = sim.with_w(|t| t.chance(1, 2));
